@@ -2,8 +2,9 @@
    string-object instance Model/ScriptKs.v. ExtrOcamlBasic only. *)
 From Coq Require Import Extraction ExtrOcamlBasic String ZArith NArith.
 From T38 Require Import Base.Bytes Model.Tables Gen.LockTable Gen.ScriptTables Gen.Dispatch Model.Gate Model.Replay
-  Model.Script Model.ScriptKs Gen.LuaPool Model.LuaPool.
+  Model.Script Model.ScriptKs Gen.LuaPool Model.LuaPool Gen.LuaGlobals Model.LuaGlobals Gen.ReplyFlush Model.ScriptFlush.
 Extraction Language OCaml.
 Extraction "model.ml" Z.add Z.of_N Nat.add kplan kstep krun kinit kreplay kcname khandler leader
   bytes_of_string string_of_bytes outerh innerh outer_lock
-  src_run pinit route user_flags pool_users script_rw script_ro script_na.
+  src_run pinit route user_flags pool_users script_rw script_ro script_na
+  grun ginit extras_of frun finit.
